@@ -310,6 +310,90 @@ func (s *Scratch) BuildAll(rel string) (map[string]string, error) {
 	return failed, nil
 }
 
+// BuildJobs compiles the packages below ./gen/<job>/ for every job. A package that cannot even be LOADED (import of
+// a package that does not exist, import cycle) makes `go build` stop before it compiles anything, which would
+// hide the compile errors of every other job: jobs with load errors are set aside and the rest is built again.
+// Returns job -> first diagnostics for every job with a load or compile error.
+func (s *Scratch) BuildJobs(jobs []string) (map[string]string, error) {
+	bad := map[string]string{}
+	remaining := append([]string{}, jobs...)
+	for iter := 0; iter < 6 && len(remaining) > 0; iter++ {
+		args := []string{"build", "-gcflags=-e"}
+		n := 0
+		for _, j := range remaining {
+			if st, err := os.Stat(filepath.Join(s.Mod, "gen", j)); err == nil && st.IsDir() { // a job may emit no file at all
+				args = append(args, "./gen/"+j+"/...")
+				n++
+			}
+		}
+		if n == 0 {
+			return bad, nil
+		}
+		out, err := s.goCmd(60*time.Minute, args...)
+		if err == nil {
+			return bad, nil
+		}
+		loadErr := false
+		found := 0
+		cur := ""
+		jobOf := func(path string) string { // gen/<job>/...
+			parts := strings.Split(filepath.ToSlash(path), "/")
+			for i, p := range parts {
+				if p == "gen" && i+1 < len(parts) {
+					return parts[i+1]
+				}
+			}
+			return ""
+		}
+		for _, l := range strings.Split(string(out), "\n") {
+			if m := rePkg.FindStringSubmatch(l); m != nil {
+				cur = jobOf(m[1])
+				if cur != "" && bad[cur] == "" {
+					bad[cur] = "compile: "
+					found++
+				}
+				continue
+			}
+			if cur != "" && strings.HasPrefix(bad[cur], "compile: ") {
+				if len(bad[cur]) < 600 {
+					bad[cur] += l + " "
+				}
+				continue
+			}
+			if strings.Contains(l, ".go:") || strings.HasPrefix(l, "package ") || strings.Contains(l, "import cycle") {
+				// load error: path/to/file.go:line:col: message   |   package a imports b: import cycle
+				j := jobOf(strings.SplitN(l, ":", 2)[0])
+				if j == "" {
+					for _, w := range strings.Fields(l) {
+						if j = jobOf(w); j != "" {
+							break
+						}
+					}
+				}
+				if j != "" && bad[j] == "" {
+					bad[j] = "load: " + l
+					loadErr = true
+					found++
+				}
+			}
+		}
+		if found == 0 {
+			return nil, fmt.Errorf("go build failed without diagnostics that name a job: %v\n%s", err, tail(string(out), 3000))
+		}
+		if !loadErr {
+			return bad, nil
+		}
+		var next []string
+		for _, j := range remaining {
+			if bad[j] == "" {
+				next = append(next, j)
+			}
+		}
+		remaining = next
+	}
+	return bad, nil
+}
+
 type Prog struct {
 	Key     string // registry key
 	PkgPath string // import path relative to module, e.g. "gen/u000001"
